@@ -57,7 +57,7 @@ def cases(tier, seed):
                 for tol in (1e-10, 1e-6):
                     if tol == 1e-6 and cls not in ("generic", "hermitian"):
                         continue
-                    out.append({"key": f"{vname(fn, kw)}/{cls}/n={n}/tol={tol:g}", "vi": vi, "cls": cls, "n": n, "tol": tol})
+                    out.append({"key": f"{vname(fn, kw)}/{cls}/n={n}/tol={tol:g}", "vi": vi, "cls": cls, "n": n, "tol": tol, "tier": tier})
     return out
 
 
@@ -114,7 +114,7 @@ def run_case(case, seed):
     fails = []
     states = []
     good = 0
-    budgets = (0, 1, 2, 3, 5, 10, 50, 300)
+    budgets = (0, 1, 2, 3, 5, 10, 50, 300) if case.get("tier", "quick") == "quick" else (0, 1, 2, 3, 4, 5, 7, 10, 20, 50, 100, 200, 500)
     conv_seen = False
     before = Aq.tobytes()
     for b in budgets:
